@@ -16,6 +16,7 @@ import k1
 import runner
 
 K2DIR = os.path.join(runner.BUILD, "k2")
+LAST_CHAIN_SRC = ""
 K2TARGET = os.path.join(runner.BUILD, "k2target")
 
 NAMES = {
@@ -74,6 +75,17 @@ pub fn forelse(id: u32, out: Out) -> impl Fn(i64) -> R + Send + 'static {
     move |e| { cb(id); match out { O(c) => Ok(mix(e, c)), E(c) => Err(mix(e, c)), P => panic!("user{}", id) } } }
 /// operand of `<|`: a value, evaluated whenever the chain reaches the operator
 pub fn forv(id: u32, out: Out) -> R { cb(id); match out { O(c) => Ok(c), E(c) => Err(c), P => panic!("user{}", id) } }
+thread_local! { static FILTER_FAIL: std::cell::Cell<i64> = std::cell::Cell::new(0); }
+/// `?>` on the scaffold's `Result` values: like `Option::filter`, the predicate sees a reference to the success value; a rejected
+/// value becomes the failure the predicate left behind
+pub trait FilterExt: Sized { fn filter(self, p: impl FnOnce(&i64) -> bool) -> Self; }
+impl FilterExt for R {
+    fn filter(self, p: impl FnOnce(&i64) -> bool) -> Self {
+        match self { Ok(v) => if p(&v) { Ok(v) } else { Err(FILTER_FAIL.with(|c| c.get())) }, e => e }
+    }
+}
+pub fn ffilter(id: u32, out: Out) -> impl Fn(&i64) -> bool + Send + 'static {
+    move |_| { cb(id); match out { O(_) => true, E(c) => { FILTER_FAIL.with(|x| x.set(c)); false }, P => panic!("user{}", id) } } }
 pub fn fmaperr(id: u32, out: Out) -> impl Fn(i64) -> i64 + Send + 'static {
     move |e| { cb(id); match out { O(c) | E(c) => mix(e, c), P => panic!("user{}", id) } } }
 static GATES: Mutex<Vec<(u32, std::sync::Arc<std::sync::Barrier>)>> = Mutex::new(Vec::new());
@@ -198,7 +210,7 @@ class Prog:
 
     def operand_src(self, op, k):
         fn = {"init": "init", "map": "fmap", "andThen": "fand", "then": "fthen", "inspect": "fins",
-              "orElse": "forelse", "mapErr": "fmaperr", "or": "forv"}[op.mode]
+              "orElse": "forelse", "mapErr": "fmaperr", "or": "forv", "filter": "ffilter"}[op.mode]
         call = "%s(%d, %s)" % (fn, op.cb + self.base if op.cb else 0, self.out_src(op.out))
         if getattr(op, "gate", None):
             call = "fgate(%d, %d)" % (op.gate[0] + self.base, op.gate[1])
@@ -228,7 +240,7 @@ class Prog:
         return call
 
     def op_src(self, op, k):
-        sym = {"map": "|>", "andThen": "=>", "then": "->", "inspect": "??", "orElse": "<=", "mapErr": "!>", "or": "<|"}
+        sym = {"map": "|>", "andThen": "=>", "then": "->", "inspect": "??", "orElse": "<=", "mapErr": "!>", "or": "<|", "filter": "?>"}
         if op.mode == "init":
             return self.operand_src(op, k)
         w = getattr(op, "wspell", 0)
@@ -326,6 +338,19 @@ def blame_compile_error(source, log):
 
 def build_and_run(name, source, with_async=False, timeout=900):
     """Writes crate `name`, builds it against the current /repo/join, runs it. Returns (ok, stdout, log)."""
+    # checks of different properties may run at the same time and share the crate directories and the cargo target
+    # directory: one K2 build + run at a time
+    import fcntl
+    os.makedirs(K2DIR, exist_ok=True)
+    with open(os.path.join(K2DIR, ".lock"), "w") as lk:
+        fcntl.flock(lk, fcntl.LOCK_EX)
+        try:
+            return _build_and_run(name, source, with_async, timeout)
+        finally:
+            fcntl.flock(lk, fcntl.LOCK_UN)
+
+
+def _build_and_run(name, source, with_async, timeout):
     d = os.path.join(K2DIR, name)
     os.makedirs(os.path.join(d, "src"), exist_ok=True)
     os.makedirs(os.path.join(d, ".cargo"), exist_ok=True)
@@ -731,9 +756,9 @@ def gen_scaffold(rng, pid, kind, name=None, max_branches=4, max_depth=4, fail_ra
                 else:
                     # `<|` takes a value, not a callback: only in the sync scaffold (the async one maps operators to future combinators)
                     mode = rng.pick(["map", "andThen", "then", "inspect", "orElse", "mapErr", "andThen", "map"] +
-                                    (["or"] if kind[1] == "0" else []))
+                                    (["or", "filter"] if kind[1] == "0" else []))
                 cbid = ids.next()
-                out = outcome(mode in ("init", "andThen", "then", "orElse", "or"))
+                out = outcome(mode in ("init", "andThen", "then", "orElse", "or", "filter"))
                 if out[0] == "panic":
                     out = ("panic", cbid)
                 block = rng.chance(*block_rate)
@@ -1193,6 +1218,8 @@ def run_chain_programs(ctx, progs, crate="k2chains"):
         else:
             fns.append(p.rust_fn())
     src = PRELUDE_SYNC + CH_PRELUDE + "".join(fns) + CH_MAIN % ", ".join('("%s", %s as fn() -> String)' % (p.pid, p.pid) for p in progs)
+    global LAST_CHAIN_SRC
+    LAST_CHAIN_SRC = src
     ok, out, log = build_and_run(crate, src)
     if not ok:
         return None, log
